@@ -90,7 +90,7 @@ pub fn run_session(calls: &[&str]) -> String {
                 };
                 let mut done = false;
                 waiting_input = false;
-                let cap = if n <= 64 { 3000 } else { 40 };
+                let cap = if n <= 64 { 3000 } else { 100 };
                 for _ in 0..cap {
                     let e = rt.execute(n);
                     if let Event::Running = e {
